@@ -82,9 +82,9 @@ package ast
 //@   ensures  [alt-frame;C07] forall x parsley.Node, k int :: parsley.ListArr(x) == 0 || (!freshid(parsley.ListArr(x)) && !old(parsley.GhostSpare(parsley.ListArr(x)))) ==> same(parsley.Alt(x, k), old(parsley.Alt(x, k)))
 //@   ghost_return when fresh(*nl) :: parsley.GhostSpare(array(*nl)) = true
 //@   ensures  [wf] wfList(*nl) && len(*nl) >= old(len(*nl))
-//@   ensures  [empty-dedup;C01,C04] typeis[EmptyNode](node) ==> (len(*nl) == old(len(*nl)) + 1 || len(*nl) == old(len(*nl))) && (len(*nl) == old(len(*nl))) == (exists k int :: 0 <= k && k < old(len(*nl)) && same(old((*nl)[k]), node))
+//@   ensures  [empty-dedup;C01,C03,C04] typeis[EmptyNode](node) ==> (len(*nl) == old(len(*nl)) + 1 || len(*nl) == old(len(*nl))) && (len(*nl) == old(len(*nl))) == (exists k int :: 0 <= k && k < old(len(*nl)) && same(old((*nl)[k]), node))
 //@   ensures  [empty-appended;C01,C04] typeis[EmptyNode](node) && len(*nl) == old(len(*nl)) + 1 ==> same((*nl)[len(*nl)-1], node)
-//@   ensures  [plain-append;C01,C04] !typeis[EmptyNode](node) && !typeis[NodeList](node) ==> len(*nl) == old(len(*nl)) + 1 && same((*nl)[len(*nl)-1], node)
+//@   ensures  [plain-append;C01,C03,C04] !typeis[EmptyNode](node) && !typeis[NodeList](node) ==> len(*nl) == old(len(*nl)) + 1 && same((*nl)[len(*nl)-1], node)
 //@   ensures  [prefix;C07] forall k int :: 0 <= k && k < old(len(*nl)) ==> same((*nl)[k], old((*nl)[k]))
 //@   ensures  [arr;C07] (array(*nl) == old(array(*nl)) && offset(*nl) == old(offset(*nl)) && cap(*nl) == old(cap(*nl))) || fresh(*nl)
 //@   ensures  [tail;C07] forall j int :: old(len(*nl)) <= j && j < old(cap(*nl)) ==> same(old(*nl)[0:old(cap(*nl))][j], old((*nl)[0:cap(*nl)][j])) || validElem(old(*nl)[0:old(cap(*nl))][j])
